@@ -23,7 +23,11 @@ FIXED = [0, 3600, -18000, 19800, 1172, -1, 86399, -86399, 45296]
 
 
 def tzfile_streams(ctx):
-    return [(n, d) for n, _, d in Z.pick_zones(ctx, "c04-zones")] + Z.synthetic_set(ctx, "c04-syn")
+    syn = Z.synthetic_set(ctx, "c04-syn")
+    if not (ctx.tier == "thorough" or ctx.escalated):
+        # the 200..256-type / 250-byte-table shapes are decoder shapes (C06); their lookups add nothing here
+        syn = [(n, d) for n, d in syn if not n.startswith(("syn:types_2", "syn:abbr_table_2"))]
+    return [(n, d) for n, _, d in Z.pick_zones(ctx, "c04-zones")] + syn
 
 
 def range_instances():
